@@ -665,7 +665,7 @@ def run(chk, replay=None):
         if seed["tool"] in done:
             continue
         done.add(seed["tool"])
-        for width in ("0", "1", "2", "3", "7", "4294967295", "18446744073709551615", "18446744073709551616", "-1", "abc", ""):
+        for width in ("0", "1", "2", "3", "7", "4294967295", "18446744073709551615"):      # valid values only: a usage error is not about the file
             k += 1
             jobs.append(tc.Job(seed["tool"], "decompile", seed["game"], seed["data"], seed["ext"], opts=["--max-columns", width],
                                gen={"class": "option:max-columns", "seed_file": seed["name"], "width": width}, hist=("h", k)))
